@@ -407,6 +407,15 @@ mod deltae {
                     let sig_a2 = rt.block_on(asy.signature(ShortAsync { data: basis, pos: 0, chunk })).map_err(|e| format!("async signature (short reads): {e}"))?;
                     if sig_s2 != sig_s { v.push(format!("sync signature depends on how the bytes arrive (reads of <= {chunk})")); }
                     if sig_a2 != sig_s { v.push(format!("async signature depends on how the bytes arrive (reads of <= {chunk})")); }
+                    // C16 on that path: the delta against a signature built from short reads costs no more literal bytes than greedy
+                    if let Some(g) = greedy_lit {
+                        for (nm, sg) in [("async", &sig_a2), ("sync", &sig_s2)] {
+                            if let Ok(dd) = sync.delta(Cursor::new(source), sg) {
+                                let lit: u64 = dd.ops.iter().map(|op| if let DeltaOp::Literal(x) = op { x.len() as u64 } else { 0 }).sum();
+                                if lit > g { v.push(format!("C16 {nm} signature over reads of <= {chunk}: delta carries {lit} literal bytes > textbook greedy {g}")); }
+                            }
+                        }
+                    }
                     let d_s2 = sync.delta(ShortReads { data: source, pos: 0, chunk }, &sig_s).map_err(|e| format!("sync delta (short reads): {e}"))?;
                     let d_a2 = rt.block_on(asy.delta(ShortAsync { data: source, pos: 0, chunk }, &sig_s)).map_err(|e| format!("async delta (short reads): {e}"))?;
                     if d_s2 != d_s { v.push(format!("sync delta depends on how the source bytes arrive (reads of <= {chunk})")); }
